@@ -115,11 +115,18 @@ def build_pipeline(case, start_kw=None):
     return src, out
 
 
+class ConstructionError(Exception):
+    pass
+
+
 def run_case(case):
     """drive the real API batch by batch; returns obs"""
     with warnings.catch_warnings():
         warnings.simplefilter("ignore")
-        src, out = build_pipeline(case)
+        try:
+            src, out = build_pipeline(case)
+        except Exception as e:      # noqa: BLE001   building `sdf....agg()` itself failed
+            raise ConstructionError(type(e).__name__, repr(e))
         node = _acc_node(out.stream)
         L = out.stream.sink_to_list()
         obs = []
@@ -214,16 +221,12 @@ def oracle(case, obs):
 def check(case):
     """worker entry: run + oracle; never raises"""
     try:
-        with warnings.catch_warnings():
-            warnings.simplefilter("ignore")
-            build_pipeline(case)
-    except Exception as e:      # noqa: BLE001   building `sdf....agg()` itself failed
-        sig = "C06/raises/%s/%s/at-construction" % (family(case["agg"]), type(e).__name__)
-        return {"crash": None, "obs": None,
-                "findings": [(sig, "%s: constructing the streaming aggregation raised %r (example=%s, filter=%r)"
-                              % (case["agg"], e, case.get("ex", "row"), case.get("filt")), -1)]}
-    try:
         obs = run_case(case)
+    except ConstructionError as e:
+        sig = "C06/raises/%s/%s/at-construction" % (family(case["agg"]), e.args[0])
+        return {"crash": None, "obs": None,
+                "findings": [(sig, "%s: constructing the streaming aggregation raised %s (example=%s, filter=%r)"
+                              % (case["agg"], e.args[1], case.get("ex", "row"), case.get("filt")), -1)]}
     except Exception as e:      # noqa: BLE001
         return {"crash": "%s: %s" % (type(e).__name__, e), "obs": None, "findings": []}
     return {"crash": None, "obs": obs, "findings": oracle(case, obs)}
